@@ -305,6 +305,21 @@ CHECKS = {
         "hostile target of the renaming is one of the listed names for that backend.",
         "4/C15",
     ),
+    "C14": (
+        "runtime monitor with three oracles: read-back on real engines, dialect lexers, token-skeleton invariance",
+        "About 100 hostile strings (quotes, backslashes, line breaks, comment openers, placeholders, unicode, keywords, "
+        "300 characters) are placed in 15 positions where user text reaches SQL (extend constants from text and from "
+        "Value objects, select_rows, is_in, mapv key/value/default, column and table names, concat_rows labels and id "
+        "column, record-map control keys / content names / record keys) for the SQLite, PostgreSQL, MySQL, BigQuery and "
+        "Spark dialects. The SQLite text is executed on SQLite 3.40 and the PostgreSQL text on the SQLite surrogate and "
+        "the table read back must equal the Pandas result; every text must tokenise under that dialect's lexer with the "
+        "hostile value appearing verbatim among the decoded literal / identifier tokens; the token skeleton must equal "
+        "the skeleton of the same pipeline with the string replaced by 'abc'.",
+        "Trusted: the five lexers in vf/sqllex.py (Spark's calibrated against the real Spark 4.2 here; MySQL and BigQuery "
+        "from documentation only). Names containing the dialect's identifier quote are excluded as the property says. "
+        "Two recorded findings (backslash escapes, BigQuery's doubled quote) are attributed by dialect + character.",
+        "4/C14",
+    ),
 }
 
 NOT_BUILT = "check not built yet (build in progress, see DESIGN.md section 8)"
